@@ -286,6 +286,7 @@ PROBES = [
     ("java-class-named-Builder", ["java"], "packet Builder { a: 8 }"),
     ("java-member-ending-in-size", ["java"], "packet P { a_size: 8 }"),
     ("java-body-without-children", ["java"], "packet P { a: 8, _body_ }"),
+    ("java-body-parent-with-alias-child", ["java"], "packet R { a: 8, _body_ } packet C : R { _payload_ }"),
     ("java-constraint-on-grandparent", ["java"], "packet A { t: 8, _payload_ } packet B : A { _payload_ } packet C : B (t = 1) { c: 8 }"),
     ("group-nested-constraints", ["rust", "python", "cxx", "java"], "enum E : 8 { X = 1 } group G { a: 8, e: E } group H { G { a = 3 }, b: 8 } packet P { H, G { e = X } }"),
 ]
